@@ -130,4 +130,59 @@ theorem rt_resp_rtu_fc (r : Resp) (h : Resp.WF9 r) (l hh : UInt8) (sp : Bytes) :
     rcases h with rfl | rfl <;> exact rt_wmulti_resp_rtu _ u a c l hh sp
   | sid u st id add => exact absurd h (by simp [Resp.WF9])
 
+/-! ### read server id (FC17): id length, id bytes, run status, optional additional data -/
+
+theorem rt_sidresp_tcp_aux (tid : UInt16) (len : UInt16) (u st bl : UInt8) (id t : Bytes)
+    (hbl : bl.toNat = id.length) (h1 : 1 ≤ id.length) (sp : Bytes) :
+    parseSidRespTCP ⟨mbap tid len ++ ([u, 17, bl] ++ id ++ [st] ++ t), sp⟩ =
+      .ok (tid, .sid u st id (if t = [] then none else some t)) := by
+  unfold mbap put16 parseSidRespTCP
+  have hl := bl.toNat_lt
+  have hb0 : bl ≠ 0 := by
+    intro e; rw [e] at hbl; simp at hbl; omega
+  rt_simp
+  rw [hbl]
+  have e1 : List.take (9 + id.length - 9) (id ++ [st] ++ t) = id := by
+    rw [show 9 + id.length - 9 = id.length by omega, List.append_assoc, List.take_left']; rfl
+  have e2 : (lo8 tid :: 0 :: 0 :: hi8 len :: lo8 len :: u :: 17 :: bl :: (id ++ [st] ++ t)).getD (8 + id.length) 0 = st := by
+    rw [show 8 + id.length = id.length + 8 by omega]
+    simp [List.getD_eq_getElem?_getD, List.getElem?_append_right]
+  have e3 : List.drop (8 + id.length) (0 :: 0 :: hi8 len :: lo8 len :: u :: 17 :: bl :: (id ++ [st] ++ t)) = t := by
+    rw [show 8 + id.length = id.length + 8 by omega]
+    simp [List.drop_append]
+  rw [e1, e2, e3]
+  by_cases ht : t = []
+  · subst ht
+    have c1 : ¬ (id.length + 1 + 1 + 1 + 1 + 1 + 1 + 1 + 1 + 1 + 1 < 11) := by omega
+    have c2 : ¬ (id.length + 1 + 1 + 1 + 1 + 1 + 1 + 1 + 1 + 1 ≤ 8 + id.length) := by omega
+    have c3 : ¬ (8 + id.length < id.length + 8) := by omega
+    simp [hb0, c1, c2, c3]
+  · have hp : 0 < t.length := List.length_pos_iff.2 ht
+    simp only [hb0, ht, if_false]
+    split_ifs <;> first | omega | rfl
+
+theorem rt_sidresp_rtu_aux (u st bl l h : UInt8) (id t : Bytes)
+    (hbl : bl.toNat = id.length) (h1 : 1 ≤ id.length) (sp : Bytes) :
+    parseSidRespRTU ⟨[u, 17, bl] ++ id ++ [st] ++ t ++ [l, h], sp⟩ = .ok (.sid u st id (some t)) := by
+  unfold parseSidRespRTU
+  have hl := bl.toNat_lt
+  have hb0 : bl ≠ 0 := by
+    intro e; rw [e] at hbl; simp at hbl; omega
+  rt_simp
+  rw [hbl]
+  have e1 : List.take (3 + id.length - 3) (id ++ [st] ++ t ++ [l, h]) = id := by
+    rw [show 3 + id.length - 3 = id.length by omega, List.append_assoc, List.append_assoc, List.take_left']; rfl
+  have e2 : (17 :: bl :: (id ++ [st] ++ t ++ [l, h])).getD (2 + id.length) 0 = st := by
+    rw [show 2 + id.length = id.length + 2 by omega]
+    simp [List.getD_eq_getElem?_getD]
+  have e3 : List.take (id.length + 1 + t.length + 2 + 1 + 1 + 1 - 2 - (2 + id.length + 1 + 1))
+      (List.drop (2 + id.length) (bl :: (id ++ [st] ++ t ++ [l, h]))) = t := by
+    rw [show 2 + id.length = id.length + 2 by omega]
+    rw [show id.length + 1 + t.length + 2 + 1 + 1 + 1 - 2 - (id.length + 2 + 1 + 1) = t.length by omega]
+    simp [List.drop_append]
+    rw [List.drop_eq_nil_of_le (by omega), List.nil_append, List.take_left']; rfl
+  rw [e1, e2, e3]
+  simp only [hb0, if_false]
+  split_ifs <;> first | omega | rfl
+
 end Modbus.Lemmas
